@@ -178,6 +178,13 @@ def init(run_id: str, mid: int, kwargs: dict[str, Any], ctx: Any, state_cls: Any
     return Stream(**kw)
 
 
+def wrong_state(state: Any) -> None:
+    """Body of the *base* member of a union-declared stream: the stream was started with the derived member, so this
+    running means a state object was rebuilt as the wrong class somewhere between two turns."""
+    record(state.run_id, ev="wrong_state", mid=state.mid, cls=type(state).__name__)
+    raise AssertionError(f"stream state of method #{state.mid} was rebuilt as {type(state).__name__}, not as the class the method returned")
+
+
 def produce(state: Any, out: Any, ctx: Any) -> None:
     _keep(state)
     m = SPECS[state.run_id]["methods"][state.mid]
